@@ -163,6 +163,10 @@ def pairing(kind, udp=False, tcp=False):
             # the real framer: the buffer the decoder saw starts at what this call received (the stale bytes were discarded)
             rx = b''.join(bytes(d) for (sz, d) in wire.reads)
             E.prove('result:nothing-buffered-before-this-call-takes-part-in-decoding', len(stale) == 0 or not bytes(mine[0][1]).startswith(bytes(stale)) or rx.startswith(bytes(stale)))
+        # "decoded from bytes received during that call": the message handed out leaves the manager - a reply slot that kept it would hand
+        # it out again to a later call that receives nothing under the same key (RTU: the unit id; TCP: the id after a wrap)
+        tx = E.get(tm, 'transactions')
+        E.prove('result:the-message-handed-out-is-not-kept-in-a-reply-slot', not any(v is r for v in list(tx.values())))
         m, hdr = mine[0][3], mine[0][2]
         if kind == 'socket':
             wtid = hdr['tid']
